@@ -353,7 +353,7 @@ impl Check for C17 {
         40
     }
     fn cases(&self, tier: Tier) -> u64 {
-        tier.pick(120, 3_000)
+        tier.pick(320, 3_000)
     }
     fn run(&self, case: &Case) -> (Verdict, CaseInfo) {
         let mut info = CaseInfo::default();
